@@ -57,7 +57,16 @@ def run(oc, tier, seed, model_available, escalate):
     wstat = {}
     for i in range(n_cases):
         algo, n, k0, k, percall, msg, mode, ec = one_case(rng, big=(i % 30 == 0))
-        man = cu.manager(algo, n, k0)
+        if i % 7 == 3:
+            # a codec object constructed just now, right after a codec of the OTHER reedsolo field was constructed and used in the same process
+            # (the field tables of reedsolo are module-wide): a freshly constructed object must work whatever was constructed before it
+            with common.quiet():
+                other = cu.eccman().ECCMan(n, k0, algo=(4 if algo != 4 else 3))
+                other.encode(bytes(range(1, min(k0, 5) + 1)))
+                man = cu.eccman().ECCMan(n, k0, algo=algo)
+            oc.count("freshly constructed codec object")
+        else:
+            man = cu.manager(algo, n, k0)
         kw = {"k": k} if percall else {}
         karg = k if percall else 0
         try:
